@@ -728,6 +728,11 @@ class JsonHistory(History):
     def clear(self):
         """Clears the current session's history from both memory and disk."""
 
+        # Flushers queued earlier would merge their commands into the emptied
+        # file and adjust the counters afterwards: let them finish first.
+        with self._cond:
+            self._cond.wait_for(lambda: len(self._queue) == 0)
+
         # Wipe history from memory. Keep sessionid and other metadata.
         self.buffer = []
         self.tss = JsonCommandField("ts", self)
